@@ -10,7 +10,7 @@ from vlib import core, e2e, text_oracles
 from vlib.coord_common import first_diff
 from vlib.props import C08
 
-MODS = ['S4V.Props.StreamSpec', 'S4V.Props.StreamSearchSpec', 'S4V.Props.TarMemberSpec']
+MODS = ['S4V.Props.StreamSpec', 'S4V.Props.StreamSearchSpec', 'S4V.Props.TarMemberSpec', 'S4V.Props.LineSkelSpec']
 LEVEL_NOTE = ("Proved over the model of BlockReader::new / read_block / read_block_File{,Gz,Bz2,Lz4,Xz,Tar} / drop_block and the copy loop of "
               "decompress_to_ntf, with a decoder modelled as the decompressed bytes plus an ARBITRARY script of chunk sizes: for every block size >= 1, "
               "every content (empty, one byte, exact multiples) and every chunking, gz, bz2 and lz4 assemble exactly the plain file's blocks; xz (split in new, "
@@ -502,7 +502,7 @@ def oracle(ctx):
 
 
 def check(ctx):
-    return core.standard_check(ctx, ['Blocks', 'Stream', 'TarMember'], MODS, [], oracle, LEVEL_NOTE, ASSUME, extra_corr_fn=corr_asm)
+    return core.standard_check(ctx, ['Blocks', 'Stream', 'TarMember', 'Lines', 'LinesMutants'], MODS, [], oracle, LEVEL_NOTE, ASSUME, extra_corr_fn=corr_asm)
 
 
 def replay(ctx, data):
